@@ -58,6 +58,10 @@ func (e *Enc) call(fr *Frame, b *ssa.BasicBlock, x *ssa.Call, cc *ssa.CallCommon
 			return finish(e.callHavoc(fr, fn, args, st, reach, pos, rt, "closure "+fn.Name()))
 		}
 	}
+	// dynamic function value of a type governed by a schema contract
+	if sch := e.ctx.schemaForType(cc.Value.Type()); sch != nil {
+		return finish(e.callBySchema(fr, sch, args, st, reach, pos, rt))
+	}
 	// dynamic function value
 	fv := e.val(fr, cc.Value)
 	if len(fv.L) == 1 {
@@ -367,6 +371,7 @@ func (e *Enc) paramScope(fn *ssa.Function, args []Val, st State, old *State, err
 			}
 			names[p.Name()] = v
 			names[p.Name()+"0"] = v
+			names[fmt.Sprintf("p%d", i)] = v
 		}
 	}
 	var pkg *types.Package
@@ -1011,6 +1016,16 @@ func (e *Enc) run(fn *ssa.Function) {
 			args = append(args, fr.env[p])
 		}
 		sc := e.paramScope(fn, args, st.clone(), nil, &errs, "true")
+		for _, r := range c.Assumes {
+			t := sc.b(sc.formula(r.F))
+			if errs != "" {
+				e.fatalf("%s:%d: binding error: %s in %q", r.File, r.Line, errs, r.Text)
+				errs = ""
+				continue
+			}
+			e.assume(t)
+			e.note("assumed at entry of %s: %s", shortKey(e.ctx.funcKey(fn)), r.Text)
+		}
 		for _, r := range c.Requires {
 			t := sc.b(sc.formula(r.F))
 			if errs != "" {
@@ -1025,7 +1040,32 @@ func (e *Enc) run(fn *ssa.Function) {
 		e.fatalf("function %s has no body", fn.Name())
 		return
 	}
+	// allocation bound (C04): in functions reading from a slice reader, every make() is linear in the bytes available at entry
+	for _, p := range fn.Params {
+		if typeKeyFull(p.Type()) == "github.com/Eyevinn/mp4ff/bits.SliceReader" {
+			pv := fr.env[p]
+			hl, okl := e.heapSymIf(&st, "H|bits.FixedSliceReader.len")
+			hp, okp := e.heapSymIf(&st, "H|bits.FixedSliceReader.pos")
+			if okl && okp {
+				rem0 := e.define("rem0", bv64, app("bvsub", sel(hl, pv.L[1]), sel(hp, pv.L[1])))
+				e.allocHook = func(fr2 *Frame, st2 *State, reach string, x ssa.Instruction, ln string, et types.Type) {
+					if x == nil || fr2 != fr {
+						return
+					}
+					sz := sizes.Sizeof(et)
+					if sz <= 0 {
+						sz = 1
+					}
+					bytes := app("bvmul", ln, c64(sz))
+					bound := bvadd(app("bvmul", c64(64), rem0), c64(65536))
+					e.oblig("alloc", e.exprText(x.Pos()), reach, and(app("bvsle", ln, c64(1<<40)), app("bvsle", bytes, bound)), x.Pos(), []string{"alloc"}, "allocation bounded by 64 x available input bytes + 64 KiB", nil)
+				}
+			}
+			break
+		}
+	}
 	e.encodeBody(fr, st, "true")
+	e.allocHook = nil
 	for _, r := range fr.rets {
 		e.retReach = append(e.retReach, r.reach)
 	}
@@ -1202,4 +1242,79 @@ func (e *Enc) frameObligationOld(fr *Frame, c *Contract, args []Val, r retInfo, 
 		}
 		e.oblig("frame", what, r.reach, cond, r.pos, []string{"frame"}, "assigns "+c.Assigns.Text, c.Assigns)
 	}
+}
+
+// callBySchema: call through a function value whose type is governed by a schema (e.g. the box decoder registry):
+// the schema's requires are obligations here, everything reachable is havocked, the schema's ensures are assumed.
+func (e *Enc) callBySchema(fr *Frame, sch *Schema, args []Val, st *State, reach string, pos token.Pos, rt types.Type) Val {
+	errs := ""
+	names := map[string]Val{}
+	for i, a := range args {
+		names[fmt.Sprintf("p%d", i)] = a
+	}
+	pkg := e.ctx.typesPkg(sch.Pkg)
+	pre := &Scope{e: e, st: st.clone(), names: names, pkg: pkg, err: &errs, reach: reach}
+	reqs := sch.C.Requires
+	if len(sch.CallReq) > 0 {
+		reqs = sch.CallReq
+	}
+	for _, r := range reqs {
+		e.goalMode = true
+		t := pre.b(pre.formula(r.F))
+		e.goalMode = false
+		if errs != "" {
+			e.fatalf("%s:%d: binding error: %s in %q", r.File, r.Line, errs, r.Text)
+			errs = ""
+			continue
+		}
+		e.oblig("pre:schema:"+sch.Name, clauseSlug(r, 0), reach, t, pos, []string{"pre"}, r.Text, r)
+		e.assume(imp(reach, t))
+	}
+	oldSt := st.clone()
+	e.havocAll(st)
+	var res Val
+	if rt != nil {
+		res = e.havocVal(rt, "ret_"+sch.Name)
+		e.wfAssume(st, reach, res)
+	}
+	post := &Scope{e: e, st: st.clone(), old: &oldSt, names: map[string]Val{}, pkg: pkg, err: &errs, reach: reach}
+	for k, v := range names {
+		post.names[k] = v
+	}
+	if rt != nil {
+		if tup, ok := rt.(*types.Tuple); ok {
+			off := 0
+			for i := 0; i < tup.Len(); i++ {
+				k := len(layout(tup.At(i).Type()))
+				post.names[fmt.Sprintf("result%d", i)] = Val{T: tup.At(i).Type(), L: res.L[off : off+k]}
+				off += k
+			}
+		} else {
+			post.names["result"] = res
+			post.names["result0"] = res
+		}
+	}
+	for _, en := range sch.C.Ensures {
+		t := post.b(post.formula(en.F))
+		if errs != "" {
+			e.fatalf("%s:%d: binding error: %s in %q", en.File, en.Line, errs, en.Text)
+			errs = ""
+			continue
+		}
+		e.assume(imp(reach, t))
+	}
+	if e.usedContracts != nil {
+		e.usedContracts["schema "+sch.Name] = true
+	}
+	return res
+}
+
+func (e *Enc) heapSymIf(st *State, key string) (string, bool) {
+	if _, ok := e.keySort[key]; !ok {
+		if e.universe != nil && !e.universe[key] {
+			return "", false
+		}
+		e.keySortOf(key, bv64)
+	}
+	return e.get(st, key, bv64), true
 }
